@@ -511,7 +511,7 @@ func c20TwoURLsUnit() *Unit {
 				os.WriteFile(filepath.Join(dir, "Taskfile.yml"), []byte(rootTF), 0o644)
 				srv.set("v1", "up")
 				env := []string{"TASK_X_REMOTE_TASKFILES=1"}
-				first := []string{"--timeout", "5s", "--insecure", "--yes"}
+				first := []string{"--timeout", "20s", "--insecure", "--yes"}
 				if later[0] == "--expiry" {
 					first = append(first, later...)
 				}
@@ -584,7 +584,7 @@ func c20NestedUnit() *Unit {
 				os.MkdirAll(dir, 0o755)
 				os.WriteFile(filepath.Join(dir, "Taskfile.yml"), []byte(rootTF), 0o644)
 				srv.set("v1", "up")
-				so0, se0, rc0 := RunCLI(dir, env, "", "--timeout", "5s", "--insecure", "--yes", "a:b:show")
+				so0, se0, rc0 := RunCLI(dir, env, "", "--timeout", "20s", "--insecure", "--yes", "a:b:show")
 				n++
 				hist := []string{"run-yes a:b:show", "server-" + mode, "run --timeout 1s " + strings.Join(extra, " ")}
 				add := func(v vlab.Violation) {
@@ -704,7 +704,7 @@ func c20SlowAndChangedUnit() *Unit {
 			srv.mu.Lock()
 			srv.slowOn = false
 			srv.mu.Unlock()
-			so0, se0, rc0 := RunCLI(dir, env, "", "--timeout", "5s", "--insecure", "--yes", "changing:show")
+			so0, se0, rc0 := RunCLI(dir, env, "", "--timeout", "20s", "--insecure", "--yes", "changing:show")
 			n++
 			hist := []string{"run-yes changing:show (both downloaded and approved)", "server-content-v2, slow include silent", "run --timeout 1s changing:show"}
 			add := func(v vlab.Violation) {
